@@ -359,6 +359,33 @@ fn run_op<const N: usize>(buf: &mut FixedBuf<N>, c: &mut Cur, out: &mut Vec<i128
             let n = c.next() as usize;
             guarded(out, |_| lib(|| buf.wrote(n)))
         }
+        // 26 / 27: the trait's PROVIDED vectored entry points with the slices [empty, d1, d2] / [empty, k1 bytes, k2 bytes]: with the
+        // default implementations this is write(d1) / read(first k1 bytes) (d1, k1 non-empty); an override shows here
+        26 => {
+            let d1 = c.take_list();
+            let d2 = c.take_list();
+            guarded(out, |o| {
+                let r = lib(|| Write::write_vectored(buf, &[std::io::IoSlice::new(&[]), std::io::IoSlice::new(&d1), std::io::IoSlice::new(&d2)]));
+                enc_io_usize(o, &r)
+            })
+        }
+        27 => {
+            let k1 = c.next() as usize;
+            let k2 = c.next() as usize;
+            guarded(out, |o| {
+                let mut e: [u8; 0] = [];
+                let mut a = vec![0xDDu8; k1];
+                let mut b = vec![0xDDu8; k2];
+                let r = lib(|| {
+                    Read::read_vectored(buf, &mut [std::io::IoSliceMut::new(&mut e), std::io::IoSliceMut::new(&mut a), std::io::IoSliceMut::new(&mut b)])
+                });
+                enc_io_usize(o, &r);
+                enc_bytes(o, &a);
+                if b.iter().any(|x| *x != 0xDD) {
+                    o.push(-77); // the second slice was written: never with the provided method
+                }
+            })
+        }
         _ => {}
     }
 }
